@@ -604,7 +604,7 @@ pub fn size_sweep(rec: &Rec) -> Vec<(&'static str, Vec<u8>)> {
 /// found by varying a custom value until RefSig's deterministic signature satisfies the condition.
 pub fn ground_signatures(rec: &Rec, tries: u32) -> Vec<(&'static str, Vec<u8>)> {
     let mut out: Vec<(&'static str, Vec<u8>)> = Vec::new();
-    if rec.key.scheme != Scheme::Secp {
+    if rec.key.scheme == Scheme::Toy {
         return out;
     }
     let mut want: Vec<(&'static str, fn(&[u8]) -> bool)> = vec![
